@@ -10,19 +10,24 @@ TracePlan == [b \in 1..Len(Raw[1].plan) |-> [inst |-> Raw[1].plan[b].inst, cases
 TraceMax  == Raw[1].maxServers
 Clean     == Raw[1].clean      \* no fault injected: nothing may be a setup failure
 
-VARIABLES l, pid
+\* crt[b]: (digest of) the certificate the server of batch b reported when it came up - part of "that server's
+\* actual host, port and certificate": a request sent for batch b must carry exactly it
+VARIABLES l, pid, crt
 Ev == Raw[l]
-TInit == Init /\ l = 2 /\ pid = [b \in Batches |-> 0]
+TInit == Init /\ l = 2 /\ pid = [b \in Batches |-> 0] /\ crt = [b \in Batches |-> ""]
 TNext ==
-  \/ Internal /\ UNCHANGED <<l, pid>>
+  \/ Internal /\ UNCHANGED <<l, pid, crt>>
   \/ /\ l <= Len(Raw) /\ l' = l + 1
-     /\ \/ Ev.e = "Started" /\ \E b \in Batches : Plan[b].inst = Ev.inst /\ Started(b) /\ pid' = [pid EXCEPT ![b] = Ev.pid]
-        \/ Ev.e = "Gone" /\ \E b \in Batches : pid[b] = Ev.pid /\ Gone(b) /\ UNCHANGED pid
-        \/ Ev.e = "Up"   /\ \E b \in Batches : pid[b] = Ev.pid /\ Plan[b].inst = Ev.inst /\ Up(b, Ev.addr) /\ UNCHANGED pid
-        \/ Ev.e = "Send" /\ Ev.probe /\ Ev.hdr /\ (\E b \in Batches : Send(b, Ev.name, Ev.addr, Ev.inst)) /\ UNCHANGED pid
-        \/ Ev.e = "Stop" /\ UNCHANGED pid
+     /\ \/ Ev.e = "Started" /\ UNCHANGED crt
+             /\ \E b \in Batches : Plan[b].inst = Ev.inst /\ Started(b) /\ pid' = [pid EXCEPT ![b] = Ev.pid]
+        \/ Ev.e = "Gone" /\ \E b \in Batches : pid[b] = Ev.pid /\ Gone(b) /\ UNCHANGED <<pid, crt>>
+        \/ Ev.e = "Up"   /\ UNCHANGED pid
+             /\ \E b \in Batches : pid[b] = Ev.pid /\ Plan[b].inst = Ev.inst /\ Up(b, Ev.addr) /\ crt' = [crt EXCEPT ![b] = Ev.cert]
+        \/ Ev.e = "Send" /\ Ev.probe /\ Ev.hdr /\ UNCHANGED <<pid, crt>>
+             /\ \E b \in Batches : Send(b, Ev.name, Ev.addr, Ev.inst) /\ Ev.cert = crt[b]
+        \/ Ev.e = "Stop" /\ UNCHANGED <<pid, crt>>
              /\ \E b \in Batches : pid[b] = Ev.pid /\ (IF srv[b] = "up" THEN Stop(b) ELSE (srv[b] = "stopped" /\ UNCHANGED vars))
-        \/ Ev.e = "Finish" /\ Finish /\ UNCHANGED pid
+        \/ Ev.e = "Finish" /\ Finish /\ UNCHANGED <<pid, crt>>
              /\ Range(Ev.outcomes) = AllCases                  \* exactly the selected permutations have an outcome
              /\ Range(Ev.setup) = setupFailed                  \* and exactly the never-sent ones are setup failures
              /\ (Clean => setupFailed = {})
